@@ -273,7 +273,12 @@ class Raises:
     mode 'only_if': raises cls   =>  when(old state)
     mode 'may':     cls may be raised (no condition)"""
 
-    def __init__(self, cls, when=None, mode="iff", name=None):
+    def __init__(self, cls, when=None, mode="iff", name=None, cls_obj=False):
+        if cls == "struct.error":
+            from .builtins_model import StructError
+
+            cls = StructError
+            name = name or "struct.error"
         self.cls, self.when, self.mode = cls, when, mode
         self.name = name or (cls if isinstance(cls, str) else getattr(cls, "__name__", str(cls)))
 
@@ -304,6 +309,7 @@ class Contract:
         ghost=None,
         bounded=False,
         kwargs=None,
+        ghost_inst=None,
     ):
         self.target = target
         self.short = target.split(":", 1)[1] if ":" in target else target
@@ -331,6 +337,8 @@ class Contract:
         self.ghost = ghost
         self.bounded = bounded
         self.kwargs = kwargs or {}
+        # {callee short name: {ghost parameter of the callee: spec expression over the caller's state}}
+        self.ghost_inst = ghost_inst or {}
 
     def inlines(self, q):
         if q in self.inline:
@@ -417,9 +425,17 @@ class Registry:
         for n in names:
             if n in bound.vars:
                 env.vars[n] = bound.vars[n]
+        inst = {}
+        if caller is not None:
+            inst = caller.ghost_inst.get(contract.short.split(".", 1)[1], {}) or caller.ghost_inst.get(contract.short, {})
         for n, t in contract.params:
             if n not in env.vars:
-                env.vars[n] = t.fresh(eng, n + "@ghost", I) if isinstance(t, Type) else t
+                if n in inst:
+                    fr = I.frames[-1]
+                    genv = Env(f.module, getattr(fr, "env", None), dict(getattr(I, "ghost_inputs", {})))
+                    env.vars[n] = I.eval_spec(inst[n], genv)
+                else:
+                    env.vars[n] = t.fresh(eng, n + "@ghost", I) if isinstance(t, Type) else t
         cname = caller.short if caller else "?"
         for i, req in enumerate(contract.requires):
             val = I.eval_spec(req, env)
@@ -520,6 +536,7 @@ def verify(registry, contract, timeout_ms=20000, use_cvc5=True):
             closure = Env(ex.module, None, dict(contract.closure_env(I)))
         f = FuncVal(ex.node, ex.module, closure, contract.target, owner)
         vars_ = registry.make_inputs(I, contract)
+        I.ghost_inputs = vars_
         env = Env(ex.module, None, dict(vars_))
         if contract.setup is not None:
             contract.setup(I, env)
